@@ -77,6 +77,24 @@ def run(repo, res):
                           sample='%s: %s %s every route to %s' % (r['cls'], r['a'],
                                                                    'is on' if r['ref_dom'] else 'is not on', r['b']))
     res.count('block_pairs', n, floor=100)
+    from .. import resolve_model as _M
+    lrecs, lq = _M.lookup_reach_records(repo)
+    seen = set()
+    for r in lrecs:
+        phantom = r['sem_may'] and not r['struct_may']
+        wrong = r['sem_may'] and r['struct_may'] and r['sem_dom'] != r['struct_dom']
+        k = (R.method_name(repo, r['cls']), r['a'], r['b'], phantom, wrong)
+        if k in seen:
+            continue
+        seen.add(k)
+        res.check('C03-R1', '%s %s -> %s lookup' % k[:3], not (phantom or wrong), r['line'][0], r['line'][1],
+                  'on %s shape `%s` supp\'s own lookup (names_at interpreted on the graph rebuilt from its Flow objects, in the state '
+                  'the extractor leaves them) at %s %s a name bound only in %s, while the region graph says it %s'
+                  % (r['cls'], r['variant'], r['b'],
+                     'finds' if phantom else ('reports as certainly defined' if r['sem_dom'] else 'reports as possibly undefined'),
+                     r['a'], 'is not visible there' if phantom else ('is on every route' if r['struct_dom'] else 'is not on every route')),
+                  sample='%s: the lookup at %s agrees with the region graph about %s' % (r['cls'], r['b'], r['a']))
+    res.count('lookup_reach_queries', lq, floor=300)
     # ---- continuity of statement blocks (shared with C01-R5): a dropped exit region loses/keeps definitions ----
     for cls, r in sorted(R.continuity_records(repo).items()):
         for path, line in sorted(r['dropped'].items()):
